@@ -73,7 +73,7 @@ impl Property for C19 {
     type Case = Case;
     const ID: &'static str = "C19";
     fn rule() -> &'static str {
-        "families: point sets of D+1..120 points built from a known basis (generic, exactly planar / collinear / coincident by zeroing stretches, anisotropic up to 1e6, offset up to 1e3 from the origin) with no weights, equal weights c in {0.5,1,2,7} or non-uniform positive weights (max/min up to 100), plus a second isometry for equivariance and a weight scale factor; integer point sets exactly symmetric under exchanging two coordinates about an integer centre (two centred columns with bit-identical sums of squares); vector pairs of any length 1e-3..1e3 at angles 1e-6..pi-1e-6, exactly parallel, zero, with optional origin, for the six two-vector frame constructors, iso3_from_xyo, iso3_from_basis, iso2_from_basis; planes from point triples in general position (coordinates up to 100, and triangles of size 1e-3..1e3 placed up to 1e7 sizes from the origin), from point+normal and from surface points. Oracle: defining constraints (mean, orthonormality, ordering, variance, diagonalised scatter, round trip, rank, equivariance, weight-scale invariance; proper rotation with the primary axis exact and the secondary in the right half-plane; points on plane, projection, inversion). Non-trivial: basis not axis-aligned and centre away from the origin (SVD), non-trivial weights, frame inputs farther than 5 degrees from perpendicular. Distinct = distinct canonical JSON."
+        "families: point sets of D+1..120 points built from a known basis (generic, exactly planar / collinear / coincident by zeroing stretches, anisotropic up to 1e6, offset up to 1e3 from the origin) with no weights, equal weights c in {0.5,1,2,7} or non-uniform positive weights (max/min up to 100), plus a second isometry for equivariance and a weight scale factor; integer point sets exactly symmetric under exchanging two coordinates about an integer centre (two centred columns with bit-identical sums of squares); vector pairs of any length 1e-3..1e3 at angles 1e-6..pi-1e-6, exactly parallel, exactly opposite, zero, with optional origin, for the six two-vector frame constructors, iso3_from_xyo, iso3_from_basis, iso2_from_basis; planes from point triples in general position (coordinates up to 100, and triangles of size 1e-3..1e3 placed up to 1e7 sizes from the origin), from point+normal and from surface points. Oracle: defining constraints (mean, orthonormality, ordering, variance, diagonalised scatter, round trip, rank, equivariance, weight-scale invariance; proper rotation with the primary axis exact and the secondary in the right half-plane; points on plane, projection, inversion). Non-trivial: basis not axis-aligned and centre away from the origin (SVD), non-trivial weights, frame inputs farther than 5 degrees from perpendicular. Distinct = distinct canonical JSON."
     }
     fn cases(t: Tier) -> u32 {
         t.pick(1_600_000, 10_000_000)
@@ -86,7 +86,7 @@ impl Property for C19 {
         let stretch2 = prop_oneof![4 => (logu(-1.0, 1.0), logu(-1.0, 1.0)).prop_map(|(a, b)| [a, b]), 1 => (logu(-3.0, 3.0), logu(-3.0, 3.0)).prop_map(|(a, b)| [a, b]), 1 => logu(-1.0, 1.0).prop_map(|a| [a, 0.0]), 1 => Just([0.0, 0.0])];
         let svd3 = (4usize..120).prop_flat_map(move |n| (prop::collection::vec(p3(1.0), n), stretch3.clone(), iso3(0.0), p3(1000.0), weights(n), logu(-1.0, 1.0), iso3(100.0), unit())).prop_map(|(coords, stretch, pose, offset, weights, scale_w, t, unit)| Case::Svd3 { coords, stretch, pose, offset, weights, scale_w, t, unit });
         let svd2 = (3usize..120).prop_flat_map(move |n| (prop::collection::vec(p2(1.0), n), stretch2.clone(), iso2(0.0), p2(1000.0), weights(n), logu(-1.0, 1.0), iso2(100.0), unit())).prop_map(|(coords, stretch, pose, offset, weights, scale_w, t, unit)| Case::Svd2 { coords, stretch, pose, offset, weights, scale_w, t, unit });
-        let frame = (0u8..6, unit3(), logu(-3.0, 3.0), prop_oneof![4 => unif(0.05, 3.09), 1 => logu(-6.0, -1.0), 1 => logu(-6.0, -1.0).prop_map(|x| std::f64::consts::PI - x)], unif(0.0, 6.2832), logu(-3.0, 3.0), prop::option::of(p3(1000.0)), prop_oneof![8 => Just(0u8), 1 => Just(1u8), 1 => Just(2u8), 1 => Just(3u8)])
+        let frame = (0u8..6, unit3(), logu(-3.0, 3.0), prop_oneof![4 => unif(0.05, 3.09), 1 => logu(-6.0, -1.0), 1 => logu(-6.0, -1.0).prop_map(|x| std::f64::consts::PI - x)], unif(0.0, 6.2832), logu(-3.0, 3.0), prop::option::of(p3(1000.0)), prop_oneof![8 => Just(0u8), 1 => Just(1u8), 1 => Just(2u8), 1 => Just(3u8), 1 => Just(4u8)])
             .prop_map(|(which, a, la, angle, roll, lb, origin, degenerate)| Case::Frame { which, a, la, angle, roll, lb, origin, degenerate });
         let svdsym = (any::<bool>(), prop::collection::vec((-9i8..=9, -9i8..=9, -9i8..=9), 1..6), (-300i16..=300, -300i16..=300, -300i16..=300), 0u8..3, prop::option::of(prop::sample::select(vec![0.5, 1.0, 2.0, 7.0])), iso3(100.0))
             .prop_map(|(dim3, seeds, offset, pair, equal_w, t)| Case::SvdSym { dim3, seeds, offset, pair, equal_w, t });
@@ -412,6 +412,8 @@ fn frame(which: u8, a: &P3, la: f64, angle: f64, roll: f64, lb: f64, origin: &Op
     let mut second = (ua * angle.cos() + side * angle.sin()) * lb;
     match degenerate {
         1 => second = first * (lb / la),
+        // exactly opposite: the angle between the two is pi, the cross product zero or rounding noise
+        4 => second = first * (-(lb / la)),
         2 => second = Vector3::zeros(),
         3 => first = Vector3::zeros(),
         _ => {}
